@@ -664,6 +664,47 @@ def ptr_decode(oi: int, l1: str, whole: bool) -> bool:
     return t(n.name) == name and io.tell() == start + len(enc)
 
 
+STARTS = [16370, 16375, 16377, 16378, 16379, 16380, 16381, 16382, 16383, 16384, 16385, 16390]
+
+
+def ptr_boundary(si: int, l1: str, c: str) -> bool:
+    """
+    pre: 0 <= si < 12 and len(l1) == 2 and len(c) == 1 and all(ord(x) < 256 and x != "." for x in l1 + c)
+    post: _
+    """
+    # the RECORDING side at the 14 bit boundary: a name written at message offset `start` (labels at
+    # start, start+3, start+6), written again, and a sibling sharing its suffix
+    start = _pick(si, STARTS)
+    io = L.BytesIO()
+    io.seek(start - HS)
+    cd = {} if L.__real__ else lbytes.SymDict()
+    names = [l1 + "." + SUF, l1 + "." + SUF, c + "." + SUF]
+    pos = []
+    for nm in names:
+        pos.append(io.tell() + HS)
+        L.Name(b(nm)).encode(io, cd)
+    end = io.tell() + HS
+    cover()
+    api.obs((start, pos))
+    lens = [pos[1] - pos[0], pos[2] - pos[1], end - pos[2]]
+    want2 = 2 if start <= 16383 else 11
+    want3 = 2 + (2 if start + 3 <= 16383 else (3 + (2 if start + 6 <= 16383 else 5)))
+    if lens != [11, want2, want3]:
+        return False
+    if L.__real__:
+        io2 = L.BytesIO(b"\0" * HS + io.getvalue())
+    else:
+        io2 = DnsIO()
+        io2.chars = ["\0"] * HS + list(io.chars)
+    io2.seek(start)
+    out = []
+    for _ in names:
+        n = L.Name()
+        n.decode(io2)
+        out.append(t(n.name))
+    return out == names and io2.tell() == end
+
+
 NPADS = [3, 4, 5, 17, 70]
 
 
@@ -694,7 +735,7 @@ def msg_big(npi: int, ttl: int, s1: str) -> bool:
     return _same_rr("A", m.answers[npad], d.answers[npad]) and _same_rr("A", m.answers[npad + 1], d.answers[npad + 1])
 
 
-BOUNDS = {"quick": {"lab": 2, "names": 2, "txt": 1, "npads": 4}, "thorough": {"lab": 3, "names": 4, "txt": 2, "npads": 5}}
+BOUNDS = {"quick": {"lab": 2, "names": 2, "txt": 1, "npads": 5}, "thorough": {"lab": 3, "names": 4, "txt": 2, "npads": 5}}
 B = {}
 ENCODED = ["twisted.names.dns:" + n for n in (
     "Name.encode", "Name.decode", "Query.encode", "Query.decode", "RRHeader.encode", "RRHeader.decode",
@@ -754,6 +795,7 @@ HARNESSES = [
     H(overlong, shards=[("kind == 0",), ("kind == 1", "i < %d" % len(TOTALS))]),
     H(ptr_bytes, shards=[("whole",), ("not whole",)]),
     H(ptr_decode, shards=[("whole",), ("not whole",)], timeout={"quick": 90, "thorough": 600}),
+    H(ptr_boundary, timeout={"quick": 90, "thorough": 600}),
     H(msg_big, timeout={"quick": 120, "thorough": 900}),
 ]
 
@@ -778,6 +820,7 @@ VECTORS = {
               (7, 4000, 1, 300, 10, 1, "\x01\x02", "t"), (9, 77, 1, 1, 2, 3, "ab", "c")],
     "ptr_bytes": [(12, "ab", True), (1024, "ab", False), (16383, "\xff\x00", False), (4660, "zz", True)],
     "ptr_decode": [(0, "ab", True), (7, "ab", False), (8, "ab", True), (15, "\xc0\x0c", False), (11, "q\x00", False)],
+    "ptr_boundary": [(0, "ab", "c"), (6, "ab", "c"), (8, "ab", "c"), (9, "ab", "c"), (3, "\xc0\x00", "\xff"), (11, "ab", "a")],
     "msg_big": [(0, 300, "\x0a\x00"), (2, 4294967295, "ab"), (3, 1, "ab"), (4, 5, "\x01\x02")],
     "overlong": [(0, 3, False, True), (0, 5, False, False), (0, 6, False, True), (0, 14, False, True), (0, 17, False, False),
                  (1, 0, False, True), (1, 5, False, True), (1, 5, True, False), (1, 6, False, True), (1, 6, True, True),
